@@ -95,6 +95,60 @@ def gen_hub(cls, rng, count, prefix="h"):
     return cases
 
 
+def gen_thin(cls, rng, count, prefix="t"):
+    """a hub that grows past a capacity boundary and is then thinned ONE EDGE AT A TIME back to a handful of entries, with
+    parallel edges of distinct values sitting in the long list the whole time: whatever a removal does to a long or a
+    sparsely filled list (compaction, swap-removal, re-allocation) must keep the order both endpoints report"""
+    cases = []
+    for ci in range(count):
+        m = rng.choice([33, 40, 48, 65, 70, 90, 130])
+        inbound = ci % 2 == 0           # the long list is the hub's inbound list (spokes connect TO it) / its outbound list
+        keys = rng.sample(range(1, 400), m + 2)
+        steps = ["new %d %d" % (k, rng.randint(-5, 5)) for k in keys]
+        U, H = 0, 1                     # partner and hub; spokes are 2..m+1
+        par = []                        # parallel edges between the partner and the hub, scattered through the growth
+        def partner_edge(val):
+            if inbound:
+                steps.append("con %d %d %d" % (U, H, val))
+            else:
+                steps.append("con %d %d %d" % (H, U, val))
+        partner_edge(1)
+        partner_edge(2)
+        spokes = list(range(2, m + 2))
+        late = rng.randrange(m)
+        for i, s in enumerate(spokes):
+            if inbound:
+                steps.append("con %d %d %d" % (s, H, 10 + i))
+            else:
+                steps.append("con %d %d %d" % (H, s, 10 + i))
+            if i == late:
+                partner_edge(3)         # a third parallel edge in the middle / at the end of the long list
+        steps.append("snap")
+        rng.shuffle(spokes)
+        keep = rng.randint(0, 3)
+        for j, s in enumerate(spokes[:len(spokes) - keep]):
+            r = rng.random()
+            if r < 0.5:
+                steps.append("dis %d %d" % ((s, keys[H]) if inbound else (H, keys[s])))
+            elif r < 0.8:
+                steps.append("iso %d" % s)
+            else:
+                steps.append("dis %d %d" % ((H, keys[s]) if not inbound else (s, keys[H])))
+            if j % 7 == 0 or j >= len(spokes) - keep - 20:
+                steps.append("snap")
+        steps.append("snap")
+        # now the pair: remove the parallel edges one by one, from either end where that is allowed
+        for _ in range(3):
+            if cls == "U" and rng.random() < 0.5:
+                steps.append("dis %d %d" % (H, keys[U]) if inbound else "dis %d %d" % (U, keys[H]))
+            else:
+                steps.append("dis %d %d" % (U, keys[H]) if inbound else "dis %d %d" % (H, keys[U]))
+            steps.append("snap")
+            steps.append("qry %d %d" % (U, keys[H]))
+        cases.append(Case("%s%s%d" % (prefix, cls, ci), cls, steps, dict(kind="hub-thinned-one-edge-at-a-time", spokes=m)))
+    return cases
+
+
 def gen_random(cls, rng, count, maxnodes=8, minlen=100, maxlen=400, prefix="r"):
     cases = []
     for ci in range(count):
